@@ -170,8 +170,15 @@ def classify_panic(msg):
     return None
 
 
+KILLERS = set()          # statements already isolated as killing / hanging the process in this run: reported once, not run again
+
+
 def run_block(ck, runner, stmts, comp, stats, threads=4):
     """stmts: list of (kind, sql). Runs SETUP + for each: sql + DUMP. Checks outcome class and state preservation."""
+    if KILLERS:
+        n0 = len(stmts)
+        stmts = [(k, q) for k, q in stmts if q not in KILLERS]
+        stats["skipped_known_killers"] = stats.get("skipped_known_killers", 0) + n0 - len(stmts)
     flat = list(SETUP) + list(DUMP)
     for _, sql in stmts:
         flat.append(sql)
@@ -184,6 +191,7 @@ def run_block(ck, runner, stmts, comp, stats, threads=4):
             r1 = runner.run(list(SETUP) + [sql, "SELECT 1"], threads=threads, timeout=60)
             ck.count(comp, 1)
             if isinstance(r1, dict):
+                KILLERS.add(sql)
                 msg = str(r1.get("crash", "")) + ("timeout" if r1.get("timeout") else "")
                 key = classify_panic(msg)
                 if key is None and "overflowed its stack" in msg:
@@ -273,6 +281,11 @@ def statements_component(ck, runner, rng, tier):
                     block.append(("valid", rng.pick(VALID)))
         # statements containing integer / and % on columns can divide by zero (known C12 finding kills the process): keep them, they are classified
         run_block(ck, runner, block, comp, stats, threads=rng.pick([1, 4]))
+        unlisted = [v for v in ck.violations if v[0].startswith("statements/") and v[0].endswith(("/timeout", "/crash"))]
+        if unlisted and len(KILLERS) >= 4:
+            # the tree hangs or dies on several unrelated statements: the verdict is settled, every further block costs minutes of timeouts
+            ck.note(comp, "stopped_early_after_blocks", b + 1)
+            break
     for k, v in stats.items():
         ck.note(comp, k, v)
 
